@@ -8,6 +8,7 @@ Property theorems only; helpers are in `Sqfs/Proofs/HardLink.lean` (hard links) 
 -/
 import Sqfs.Proofs.HardLinkTree
 import Sqfs.Proofs.TextParse
+import Sqfs.Proofs.C07Lines
 namespace Sqfs.C07
 open Sqfs.HardLink
 
@@ -273,5 +274,39 @@ example : base64Decode [81, 85, 74, 68] 0 4 2 = .fail 1 := by decide
 example : (match splitLine [97, 32, 34, 98, 32, 99, 34, 0] 7 [32, 9] with | .ok s => s.args.length | _ => 99) = 2 := by decide
 
 end Parsers
+
+/-! ## Reading a text input line by line (`istream_get_line` and its callers' loop) -/
+section Lines
+open Sqfs.IoLoops Sqfs.C07Lines
+
+/--
+**Pack, sort and xattr map files of any size and shape are read to the end, the same way for every buffering.**
+`readFileOS B flags data os` is the loop `for (;;) { istream_get_line(…); … ++line_num; }` of
+`fstree_from_file_stream` / `xattr_open_map_file` / the sort file reader over the real buffered file stream
+(`istream.c`, buffer size `B`) and the real `istream_get_line` (`get_line.c`: a line is collected from as many buffer
+windows as it takes).  For **every** file content, every buffer size `B > 0`, every flag set and every script of short
+reads / `EINTR`s: the loop is not still running after `data.length + 2` calls (no endless loop, whatever the
+lines look like: longer than the buffer, straddling a buffer boundary, CR/LF split across two windows, no final
+newline, NUL bytes), it does not fail, and the caller sees exactly the lines — with the line numbers — of the
+byte-at-a-time specification `specFile`, in which neither `B` nor the script occurs.
+-/
+theorem read_lines_chunking_independent (B : Nat) (hB : 0 < B) (flags : Nat) (data : Bytes) (os : OS)
+    (h : noHard os.sc = true) :
+    readFileOS B flags data os = specFile flags data ∧ (specFile flags data).err = none := by
+  refine ⟨?_, specLines_no_fuel flags _ data 1 [] (by omega)⟩
+  have := readLines_file B hB data flags (data.length + 2) (IStream.init data) ⟨0, 0⟩ 1 os [] (rel_init B data)
+    (by simp [Iv]) h
+  simpa [readFileOS, specFile] using this
+
+/-! ### non-vacuity -/
+-- buffer of 4 bytes, a line longer than the buffer, CR LF split across two windows, an empty line that is skipped and counted
+example : readFile 4 5 [32, 97, 98, 99, 100, 101, 13, 10, 10, 120] =
+    ⟨none, [([97, 98, 99, 100, 101], 1), ([120], 3)], 4⟩ := by decide
+example : specFile 5 [32, 97, 98, 99, 100, 101, 13, 10, 10, 120] =
+    ⟨none, [([97, 98, 99, 100, 101], 1), ([120], 3)], 4⟩ := by decide
+-- a script with a short read and an EINTR satisfies the hypothesis
+example : noHard (⟨[.part 0, .eintr, .part 2], []⟩ : OS).sc = true := by decide
+
+end Lines
 
 end Sqfs.C07
